@@ -134,6 +134,9 @@ class Interp:
         self.log = []             # (op index, status)
         self.stats = {}
         self.cached_ok = True
+        # False: the real file may hold entities the skeleton does not know (C12's valid retries), so
+        # positional strategies (index / negative index) would address other entities than the model's
+        self.positional_ok = True
 
     # ------------------------------------------------------------------ model helpers
     def alive(self, kind, pred=None):
@@ -173,7 +176,7 @@ class Interp:
                     e.single[role] = "dangling" if role in ("positions", "data") else None
             if e.kind == "array":
                 for d in e.info.get("dims", []):
-                    if d.get("link") is not None and not d["link"].alive:
+                    if d.get("link") not in (None, "dangling") and not d["link"].alive:
                         d["link"] = "dangling"
         return ids
 
@@ -199,6 +202,8 @@ class Interp:
             self._turn[key] = turn + 1
             return slots[turn % len(slots)]
         if how == "_raw":
+            how = "name"
+        if how in ("index", "neg") and not self.positional_ok:
             how = "name"
         if how == "cached" and ent.handle is not None and self.cached_ok:
             return ent.handle
@@ -595,6 +600,14 @@ class Interp:
         self.handle(mt, op.get("how", "name")).extents = None
         mt.single["extents"] = None
 
+    def op_sec_link(self, op):
+        sec = self.pick("section", op["t"])
+        tgt = self.pick("section", op["target"], lambda s: s is not sec)
+        if sec is None or tgt is None:
+            return False
+        self.handle(sec, op.get("how", "name")).link = self.handle(tgt)
+        sec.single["link"] = tgt
+
     def op_set_featdata(self, op):
         ft = self.pick("feature", op["t"])
         if ft is None:
@@ -679,6 +692,8 @@ class Interp:
         if ent is None:
             return False
         how = op.get("how", "name")
+        if how in ("index", "neg") and not self.positional_ok:
+            how = "name"
         cont = self.container_of(ent)
         sib = ent.parent.children[CONTAINER[ent.kind]]
         pos = sib.index(ent)
